@@ -650,6 +650,10 @@ func writeEvidence(p *Parent, agg *Agg, nViol, nKnown int) {
 		cov["distinct_"+k] = v
 	}
 	cov["evaluations"] = agg.Evaluated
+	if o, ok := agg.Counters["evaluations_override"]; ok {
+		cov["evaluations"] = o // checks whose unit of work is finer than the sharded case (e.g. one generation step)
+		delete(cov, "n_evaluations_override")
+	}
 	dn := agg.Distinct["nontrivial"]
 	cov["distinct_nontrivial"] = dn
 	cov["rule"] = ch.Rule
